@@ -8,7 +8,7 @@ import Pyc.Model.Value
 * `render_X aux u` is the SPEC side: the response a service X gives for a UTxO `u` whose value is a finite map
   policy → name → quantity, in the shape shown by the canned responses of /repo/test/pycardano/backend and the
   installed client libraries.  `aux` carries what the service reports in addition and the model cannot compute
-  (the hash of an inline datum, the hash of a reference script).
+  (the hash of an inline datum, the hash of a reference script, Ogmios' JSON notation of a native script).
 * `parse_X` transliterates what the adapter DOES with one reported entry; the comment names the Python lines.
   Exceptions are mapped to the small enum `Err`; the address (bech32 text), inline datum bytes and script bytes
   are carried as opaque payloads. -/
@@ -185,8 +185,9 @@ def constrainedJ (lo hi : Nat) (j : J) : Res Bytes := do constrained lo hi (← 
 
 /-! ## the UTxO model -/
 
-/-- opaque payloads: byte strings (datum CBOR, Plutus script bytes) or a JSON subtree handed to another
-deserialiser (`RawPlutusData.from_dict`, `NativeScript.from_dict`) -/
+/-- opaque payloads: byte strings (datum CBOR, Plutus script bytes, the CBOR of a native script handed to
+`NativeScript.from_cbor` by the Ogmios v6 path) or a JSON subtree handed to another deserialiser
+(`RawPlutusData.from_dict`, `NativeScript.from_dict`) -/
 inductive Payload where
   | bytes (b : Bytes)
   | json (j : J)
@@ -215,6 +216,9 @@ structure Aux where
   inlineHash : Bytes
   /-- hash under which a reference script is reported (Blockfrost, Kupo) -/
   scriptHash : Bytes
+  /-- Ogmios v6: its own JSON notation (`clause` / `from` / `atLeast` / `slot`) of a native reference script, shown
+  as `json` next to the serialised script `cbor` -/
+  nativeJson : J := .null
   deriving Inhabited
 
 /-- answers of the secondary endpoints, keyed by the hex hash in the URL: Kupo `GET /datums/{h}`; Kupo
@@ -575,16 +579,21 @@ def parse_ogmios_v5 (r : J) : Res UTxOModel := do
   let address ← (← io.2.field "address").asStr
   pure ⟨ti.1, ti.2, address, cm.1, cm.2, datumHash, datum, script⟩
 
-/-! ## Ogmios v6 (ogmios_v6.py:257-306, after ogmios.statequery.QueryUtxo) -/
+/-! ## Ogmios v6 (ogmios_v6.py:258-306, after ogmios.statequery.QueryUtxo) -/
 
 def nestedName (nq : Bytes × Int) : String × J := (hexStr nq.1, .num nq.2)
 def nestedPolicy (pa : Bytes × Asset) : String × J := (hexStr pa.1, .obj (pa.2.map nestedName))
 
-def v6ScriptJ (s : ScriptM) : J :=
-  .obj [("language", .str (if s.lang = 0 then "native" else plutusLang s.lang)),
-        (match s.body with
-         | .bytes b => ("cbor", .str (hexStr b))
-         | .json j => ("json", j))]
+/-- `{"language": "plutus:vN", "cbor": hex}`; a native script (`lang = 0`, the payload is its CBOR) is shown as
+`{"language": "native", "json": <Ogmios' own notation>, "cbor": hex}` (ogmios-python model `Script1`) -/
+def v6ScriptJ (aux : Aux) (s : ScriptM) : J :=
+  if s.lang = 0 then
+    .obj [("language", .str "native"), ("json", aux.nativeJson), ("cbor", payloadJ s.body)]
+  else
+    .obj [("language", .str (plutusLang s.lang)),
+          (match s.body with
+           | .bytes b => ("cbor", .str (hexStr b))
+           | .json j => ("json", j))]
 
 def v6ValueJ (u : UTxOModel) : J :=
   .obj (("ada", .obj [("lovelace", .num u.coin)]) :: u.ma.map nestedPolicy)
@@ -596,12 +605,12 @@ def optMember (k : String) (o : Option J) : List (String × J) :=
   | none => []
 
 /-- one element of the `queryLedgerState/utxo` result -/
-def render_ogmios_v6 (u : UTxOModel) : J :=
+def render_ogmios_v6 (aux : Aux) (u : UTxOModel) : J :=
   .obj ([("transaction", .obj [("id", .str (hexStr u.txId))]), ("index", .num u.index),
          ("address", .str u.address), ("value", v6ValueJ u)]
         ++ optMember "datumHash" (u.datumHash.map fun h => .str (hexStr h))
         ++ optMember "datum" (u.datum.map payloadJ)
-        ++ optMember "script" (u.script.map v6ScriptJ))
+        ++ optMember "script" (u.script.map (v6ScriptJ aux)))
 
 /-- inner loop `for token_name_hex, quantity in token.items()` -/
 def v6Inner (policyHex : String) : List (String × J) → MultiAsset → Res MultiAsset
@@ -625,7 +634,9 @@ def v6Outer : List (String × J) → MultiAsset → Res MultiAsset
 def onlyAda (kvs : List (String × J)) : Bool := !kvs.isEmpty && kvs.all fun kv => kv.1 = "ada"
 
 /-- `if script["language"].startswith("plutus:v"): PlutusScript.from_version(int(...), bytes.fromhex(script["cbor"]))
-else: raise ValueError` -/
+elif script["language"] == "native": NativeScript.from_cbor(bytes.fromhex(script["cbor"]))
+else: raise ValueError`  (`NativeScript.from_cbor` is opaque: the CBOR bytes are carried; the `json` member is not
+consulted) -/
 def v6Script (sc : J) : Res (Option ScriptM) := do
   if sc.truthy then
     let lang ← (← sc.field "language").asStr
@@ -633,6 +644,8 @@ def v6Script (sc : J) : Res (Option ScriptM) := do
       let ver ← plutusVersion lang
       let b ← fromHex (← (← sc.field "cbor").asStr)
       if 1 ≤ ver ∧ ver ≤ 3 then pure (some (ScriptM.mk ver.toNat (.bytes b))) else throw .value
+    else if lang = "native" then
+      pure (some (ScriptM.mk 0 (.bytes (← fromHex (← (← sc.field "cbor").asStr)))))
     else throw .value
   else pure none
 
@@ -677,7 +690,7 @@ def parseList {α : Type} (f : J → Res α) : List J → Res (List α)
     let as ← parseList f rest
     pure (a :: as)
 
-/-! ## cardano-cli (cardano_cli.py:411-483) -/
+/-! ## cardano-cli (cardano_cli.py:391-494) -/
 
 def cliScriptType (lang : Nat) : String :=
   if lang = 1 then "PlutusScriptV1" else if lang = 2 then "PlutusScriptV2" else "PlutusScriptV3"
@@ -738,6 +751,7 @@ def cliScript (rs : J) : Res ScriptM := do
   let ty ← (← sj.field "type").asStr
   if ty = "PlutusScriptV1" then pure ⟨1, .bytes (← fromHex (← (← sj.field "cborHex").asStr))⟩
   else if ty = "PlutusScriptV2" then pure ⟨2, .bytes (← fromHex (← (← sj.field "cborHex").asStr))⟩
+  else if ty = "PlutusScriptV3" then pure ⟨3, .bytes (← fromHex (← (← sj.field "cborHex").asStr))⟩
   else pure ⟨0, ← nativeJson sj⟩
 
 /-- `tx_id, tx_idx = tx_hash.split("#")`, `TransactionInput.from_primitive([tx_id, int(tx_idx)])` -/
